@@ -263,4 +263,63 @@ theorem xStrGo_length (idx : Nat) : ∀ (ts : List Tok) (which : Nat) (matched :
       omega
     · rw [ih]; simp [concat, List.length_append]; omega
 
+/-! ### rename_toks -/
+
+theorem flatMap_congr' {α β : Type} (f g : α → List β) : ∀ (l : List α), (∀ x ∈ l, f x = g x) → l.flatMap f = l.flatMap g := by
+  intro l
+  induction l with
+  | nil => intro _; rfl
+  | cons a l ih =>
+    intro h
+    simp only [List.flatMap_cons]
+    rw [h a List.mem_cons_self, ih (fun x hx => h x (List.mem_cons_of_mem _ hx))]
+
+/-- `rename-toks`: OK exactly for the indices below the number of distinct renameable identifiers; the output is then the
+    input with **every** occurrence of one identifier (as an identifier token) replaced by one new name, and nothing else
+    changed; on STOP nothing is printed -/
+theorem renameToks_spec (idx : Nat) (ts : List Tok) :
+    let newname := findUnused ts (ts.length + 2) ['a']
+    let index := ((ts.filter fun t => t.kind = .ident && shouldRename t.str newname).map (·.str)).eraseDups
+    ((renameToks idx ts).exit = .ok ↔ idx < index.length) ∧
+    ((renameToks idx ts).exit = .ok → ∃ target, index[idx]? = some target ∧
+      (renameToks idx ts).out = ts.flatMap fun t => if t.kind = .ident ∧ t.str = target then newname else t.str) ∧
+    ((renameToks idx ts).exit = .stop → (renameToks idx ts).out = []) := by
+  intro newname index
+  unfold renameToks
+  simp only
+  cases h : index[idx]? with
+  | none =>
+    have hlen : ¬ idx < index.length := by
+      intro hl
+      rw [List.getElem?_eq_getElem hl] at h
+      cases h
+    have h' : ((ts.filter fun t => t.kind = .ident && shouldRename t.str (findUnused ts (ts.length + 2) ['a'])).map (·.str)).eraseDups[idx]? = none := h
+    simp only [h']
+    exact ⟨by simp [hlen], by simp, by simp⟩
+  | some target =>
+    have hlen : idx < index.length := by
+      have := List.getElem?_eq_some_iff.mp h
+      exact this.1
+    have h' : ((ts.filter fun t => t.kind = .ident && shouldRename t.str (findUnused ts (ts.length + 2) ['a'])).map (·.str)).eraseDups[idx]? = some target := h
+    simp only [h']
+    refine ⟨by simp [hlen], fun _ => ⟨target, rfl, ?_⟩, by simp⟩
+    -- an occurrence of the target as an identifier token is renameable, because the target came from such a token
+    have hmem : target ∈ index := List.mem_of_getElem? h
+    have hsr : shouldRename target newname = true := by
+      have : target ∈ (ts.filter fun t => t.kind = .ident && shouldRename t.str newname).map (·.str) := by
+        simpa [index] using (List.mem_eraseDups.mp hmem)
+      simp only [List.mem_map, List.mem_filter] at this
+      obtain ⟨t, ⟨_, ht⟩, rfl⟩ := this
+      simp only [Bool.and_eq_true, decide_eq_true_eq] at ht
+      exact ht.2
+    apply flatMap_congr'
+    intro t _
+    by_cases hk : t.kind = .ident
+    · by_cases hs : t.str = target
+      · have hsr' : shouldRename target (findUnused ts (ts.length + 2) ['a']) = true := hsr
+        simp [hk, hs, hsr']
+        rfl
+      · simp [hk, hs]
+    · simp [hk]
+
 end Cvise.Clex
